@@ -61,7 +61,8 @@ ExpectedDiff(e, N, cons, P) ==
         LET top == CmpTarget(N, A1(e)) IN
         <<"relation", "only-adds-declarations", OnlyAddsDecls(N, P, top),
           "depended-bindings-kept", OnlyAddsDecls(N, P, top) /\ DependedBindingsKept(N, P, top),
-          "not-usable-afterwards", IF OnlyAddsDecls(N, P, top) THEN {x \in Named(P, top) : ~NameUsable(P, x)} ELSE {}>>
+          "not-usable-afterwards", IF OnlyAddsDecls(N, P, top) THEN {x \in Named(P, top) : ~NameUsable(P, x)} ELSE {},
+          "adds-declarations-XML-cannot-express", {<<P[j].ln, P[j].u>> : j \in {y \in (Len(N) + 1)..Len(P) : P[y].k = "nsn" /\ (P[y].ln \in {"xml", "xmlns"} \/ P[y].u \in {"", XmlNs})}}>>
     ELSE IF e.op \in RelationalOps THEN <<"relation">>
     ELSE LET same == {o \in EnumAllowed(e, N, cons) : o.res = e.res} IN
          IF same = {} THEN <<"res-not-allowed", {o.res : o \in EnumAllowed(e, N, cons)}>>
